@@ -11,7 +11,8 @@ ROOT = os.path.dirname(os.path.dirname(os.path.abspath(__file__)))
 
 
 def _prepare(crate_dir, info):
-    shutil.copyfile('/repo/Cargo.lock', os.path.join(crate_dir, 'Cargo.lock'))
+    if info.get('needs_lock', True):
+        shutil.copyfile('/repo/Cargo.lock', os.path.join(crate_dir, 'Cargo.lock'))
     gen = info.get('generate')
     if gen:
         gen(crate_dir)
